@@ -6,6 +6,7 @@ package context
 
 import (
 	"strings"
+	"sync"
 
 	"github.com/free5gc/chf/pkg/factory"
 )
@@ -15,6 +16,9 @@ var _ = factory.ChfConfig
 var _ = strings.HasPrefix
 
 func verif_forall[T any](f func(T) bool) bool { return true }
+
+// verif_held: the mutex is held by the current request (interpreted by govc)
+func verif_held(mu *sync.Mutex) bool { return true }
 
 // verif_same: the two references denote the same object (interpreted by govc)
 func verif_same[T any](a, b T) bool { return false }
@@ -32,8 +36,8 @@ var GhostKnown map[string]bool
 
 // SpecUeOf: the subscriber context registered for a SUPI. A context, once added to the pool, is never
 // replaced (AddChfUeToUePool is only called by NewCHFUe after a failed lookup).
-//@ func SpecUeOf
-//@   abstract
+// @ func SpecUeOf
+// @   abstract
 func SpecUeOf(supi string) *ChfUe { return nil }
 
 // (*ChfUe).init builds the go-diameter state machines and clients and draws session ids (outside the
@@ -46,7 +50,9 @@ func SpecUeOf(supi string) *ChfUe { return nil }
 // NewCHFUe: only SUPIs of the form "imsi-..." get a context (the charging operations slice the SUPI after
 // that prefix); the ghost view of the pool (SpecUeOf, GhostKnown) is assumed to follow the sync.Map.
 //@ func (*CHFContext).NewCHFUe [C11 C12 C10]
-//@   requires context != nil
+//@   requires context != nil && !verif_held(&context.Mutex)
+//@   assert "if ue, ok := context.ChfUeFindBySupi(supi)": [C09] verif_held(&context.Mutex)
+//@   assert "context.AddChfUeToUePool(": [C09] verif_held(&context.Mutex)
 //@   ensures (result1 == nil) == (result0 != nil)
 //@   ensures result1 == nil ==> old(GhostKnown[supi]) || strings.HasPrefix(supi, "imsi-")
 //@   ensures assumed result1 == nil ==> SpecUeOK(result0) && result0 == SpecUeOf(supi) && GhostKnown[supi]
